@@ -295,36 +295,39 @@ def mulUnits : List UId → CM α UId
   | [] => throw .typeError          -- reduce() of an empty sequence
   | u :: rest => rest.foldlM (fun acc v => liftStE (fun s => s.mulUnit acc v)) u
 
+/-- The inner loop of `_match_factors`:
+    `for start_dimension in _by_complex_first(start_factors): if start_dimension.is_factor(remaining): …;
+     if remaining is Number: break` — collect the start dimensions that are factors of what remains. -/
+def matchCollect : List Dim → List Dim → Dim → List Dim × Dim
+  | [], acc, remaining => (acc, remaining)
+  | sd :: rest, acc, remaining =>
+    let r := if sd.isFactor remaining then (acc ++ [sd], remaining.div sd) else (acc, remaining)
+    if r.2.isNumber then r else matchCollect rest r.1 r.2
+
+/-- `[_clean_pop(start_factors, d) for d in dimension_factors]` -/
+def popAll : List Dim → Splat → List UId → Except Exc (Splat × List UId)
+  | [], f, popped => .ok (f, popped)
+  | d :: ds, f, popped =>
+    match f.cleanPop d with
+    | .error e => .error e
+    | .ok (u, f') => popAll ds f' (popped ++ [u])
+
+/-- One iteration of the outer loop of `_match_factors` (state: both dicts and the plan so far). -/
+def matchStep (st : Splat × Splat × List (Rough α)) (stopDim : Dim) : CM α (Splat × Splat × List (Rough α)) :=
+  match (matchCollect st.1.byComplexFirst [] stopDim).1 with
+  | [] => pure st
+  | d0 :: ds =>
+    if ds.foldl Dim.mul d0 != stopDim then pure st else do
+      let (startF, popped) ← liftE (popAll (d0 :: ds) st.1 [])
+      let combined ← mulUnits popped
+      let (stopUnit, stopF) ← liftE (st.2.1.cleanPop stopDim)
+      let e : Int := if stopDim.any (· < 0) then -1 else 1
+      pure (startF, stopF, st.2.2 ++ [{ ratio := .int 1, start := combined, stop := stopUnit, exp := e }])
+
 /-- `_match_factors`.  Returns the rough plan and both mutated dicts. -/
 def matchFactors (startF stopF : Splat) : CM α (List (Rough α) × Splat × Splat) := do
-  let toMatch := stopF.byComplexFirst
-  let mut startF := startF
-  let mut stopF := stopF
-  let mut plan : List (Rough α) := []
-  for stopDim in toMatch do
-    let mut dimFactors : List Dim := []
-    let mut remaining := stopDim
-    for startDim in startF.byComplexFirst do
-      if startDim.isFactor remaining then
-        dimFactors := dimFactors ++ [startDim]
-        remaining := remaining.div startDim
-      if remaining.isNumber then break
-    match dimFactors with
-    | [] => continue
-    | d0 :: ds =>
-      let discovered := ds.foldl Dim.mul d0
-      if discovered != stopDim then continue
-      let mut popped : List UId := []
-      for d in dimFactors do
-        let (u, f') ← liftE (startF.cleanPop d)
-        startF := f'
-        popped := popped ++ [u]
-      let combined ← mulUnits popped
-      let (stopUnit, f') ← liftE (stopF.cleanPop stopDim)
-      stopF := f'
-      let e : Int := if stopDim.any (· < 0) then -1 else 1
-      plan := plan ++ [{ ratio := .int 1, start := combined, stop := stopUnit, exp := e }]
-  return (plan, startF, stopF)
+  let r ← stopF.byComplexFirst.foldlM matchStep (startF, stopF, [])
+  pure (r.2.2, r.1, r.2.1)
 
 /-- The `while dimension in factors and inverse in factors` loop of `_cancel_factors`. -/
 def cancelLoop (dimension inverse : Dim) (e : Int) (invert : Bool) :
